@@ -84,7 +84,20 @@ def run(tier, seed, replay):
             rep.violation("port:%s:load-%s:use-%s" % (key, c01.PROVS[lp], c01.PROVS[up]),
                           "key loaded under %s is not usable under %s (token NULL %d, verify rc %d, ref %d)" % (c01.PROVS[lp], c01.PROVS[up], null, vrc, ref),
                           dict(line=line))
+    for line in r.stdout.splitlines():
+        if not line.startswith('["P2"'):
+            continue
+        _, key, alg, lp, pat, step, prov, null, vrc, ref, vprev = json.loads(line)
+        rep.evaluations += 1
+        rep.distinct.add(("switch", key, lp, pat, step))
+        rep.count("provider_switch_steps")
+        if null or vrc != 0 or ref != 1 or vprev not in (-1, 0):
+            rep.violation("switch:%s:created-under-%s:step%d-under-%s" % (key, c01.PROVS[lp], step, c01.PROVS[prov]),
+                          "builder/checker/keyring created under %s, provider switched in the middle of the history (pattern %s): step %d under %s gives "
+                          "token NULL %d, verify rc %d, reference %d, verify of the previous provider's token rc %d"
+                          % (c01.PROVS[lp], "ABABAB" if pat == 0 else "AABBAA", step, c01.PROVS[prov], null, vrc, ref, vprev), dict(line=line))
     c = rep.counters
+    vf.need(rep, c.get("provider_switch_steps", 0) >= 150, "provider-switch histories missing")
     vf.need(rep, c.get("verdict_pairs", 0) > 20000, "too few verdict pairs")
     vf.need(rep, c.get("deterministic_pairs", 0) >= 6, "too few deterministic token pairs compared")
     vf.need(rep, c.get("portability_cells", 0) >= 28, "key portability cells missing")
